@@ -175,7 +175,7 @@ def c03(ctx):
 
 
 def c04(ctx):
-    fmt_family(ctx, ["R04"], "none", gap_quick="1/4", gap_thoro="1/1", pair_quick="1/2000", pair_thoro="1/100",
+    fmt_family(ctx, ["R04"], "fmt", gap_quick="1/4", gap_thoro="1/1", pair_quick="1/2000", pair_thoro="1/100",
                tabs_quick="2,4")
 
 
@@ -200,7 +200,18 @@ def c11(ctx):
 
 
 def c12(ctx):
-    fmt_family(ctx, ["R12a"], "lines", gap_quick="1/12", gap_thoro="1/2", tabs_quick="2,3,5", tabs_thoro="1,2,3,4,5,7,8")
+    fmt_family(ctx, ["R12a", "R12b"], "lines,unit", gap_quick="1/12", gap_thoro="1/2", tabs_quick="2,3,5",
+               tabs_thoro="1,2,3,4,5,7,8")
+
+
+def c19(ctx):
+    fmt_family(ctx, ["R19"], "imp", seed_tags="import,markup", gap_quick="1/2", gap_thoro="1/1", pair_quick="1/200",
+               pair_thoro="1/20", tabs_quick="2")
+
+
+def c07(ctx):
+    fmt_family(ctx, ["R07"], "off", trivia_tags="off", gap_quick="1/1", gap_thoro="1/1", pair_quick="1/400",
+               pair_thoro="1/50", tabs_quick="2,4")
 
 
 # ---------------------------------------------------------------------------------------
@@ -294,7 +305,176 @@ def cli_family(ctx):
                 "or something was printed")
 
 
+# ---------------------------------------------------------------------------------------
+# C05 — totality (Pipeline.tla)
+
+def c05(ctx):
+    q = ctx.quick
+    ctx.design_check("Pipeline", "SPECIFICATION Spec\nINVARIANTS TypeOK RefusalExact WrapperContract\nPROPERTY Terminates\nCHECK_DEADLOCK FALSE\n",
+                     workers=2)
+    d = os.path.join(ctx.work, "rec-calls")
+    t = time.time()
+    big = 4611686018427387903  # usize::MAX / 2
+    cfgs = "80:2:2:0,0:0:2:0" if q else "80:2:2:0,0:0:2:0,1:1:2:1,%d:64:2:0" % big
+    C.run([C.VT, "calls", "--maxlen", "3" if q else "4", "--extra", "1/30" if q else "1/12", "--seed", str(ctx.seed),
+           "--mut-stride", "9" if q else "2", "--nest-max", "64" if q else "300", "--cfgs", cfgs,
+           "--outdir", d, "--shards", "12", "--verif", C.VERIF, "--fixtures", os.path.join(C.REPO, "tests", "fixtures")],
+          timeout=3000)
+    s = json.load(open(os.path.join(d, "summary.json")))
+    C.log("recorded calls: %d inputs, %d events (%s) in %.1fs" % (s["elements"], s["events"], s["universe_stats"], time.time() - t))
+    ctx.recdirs.append(d)
+    ctx.rec_summaries.append(dict(name="calls", **{k: s[k] for k in ("universe", "elements", "events", "format_calls",
+                                                                       "nontrivial_events", "universe_stats")}))
+    ctx.nontrivial += s["nontrivial_events"]
+    ctx.samples += s["samples"][:4]
+    ctx.validate("TracePipeline", None, specname="TSpec",
+                 consts='CONSTANT Rels = {"Returns", "PhasesFollowSpec", "RefusalExact", "WrapperContract", "NonEmpty"}\n')
+    ctx.rule = ("one evaluation = one call of Typstyle::format_content + format_with_width on a UTF-8 string under one "
+                "configuration, with the phase hook logging the pipeline phases; non-trivial = the formatter accepted the "
+                "input and returned text (the others were refused as erroneous)")
+    ctx.assumptions.append("calls run in worker processes with catch_unwind; a dead worker is bisected to the input (abort), "
+                           "a silent one for 10 s is a timeout")
+
+
+# ---------------------------------------------------------------------------------------
+# C13 — range formatting (R13 relations)
+
+def c13(ctx):
+    q = ctx.quick
+    d = os.path.join(ctx.work, "rec-ranges")
+    t = time.time()
+    C.run([C.VT, "ranges", "--universe", "gap+chunk", "--single", "1/150" if q else "1/12", "--chunk-bytes", "80",
+           "--chunk-frac", "1/6" if q else "1/1", "--seed", str(ctx.seed), "--max-doc", "70" if q else "80",
+           "--cfgs", "40:2:2:0" if q else "40:2:2:0,0:4:2:0,120:3:2:0", "--outdir", d, "--shards", "12",
+           "--verif", C.VERIF, "--fixtures", os.path.join(C.REPO, "tests", "fixtures")], timeout=3000)
+    s = json.load(open(os.path.join(d, "summary.json")))
+    C.log("recorded ranges: %d documents, %d calls, %d distinct results in %.1fs" % (
+        s["elements"], s["format_calls"], s["events"], time.time() - t))
+    # erroneous documents: refusal / no panic
+    d2 = os.path.join(ctx.work, "rec-ranges-err")
+    mut = os.path.join(ctx.work, "damaged.ndjson")
+    import random
+    rnd = random.Random(ctx.seed)
+    with open(mut, "w") as f:
+        n = 0
+        for line in open(os.path.join(d, "inputs.ndjson")):
+            r = json.loads(line)
+            if n >= (150 if q else 1200):
+                break
+            t0 = r["text"]
+            if len(t0) < 4:
+                continue
+            k = (hash(r["id"]) + ctx.seed) % (len(t0) - 1)
+            for j, dmg in enumerate([t0[:k] + t0[k + 1:], t0[:k] + "(" + t0[k:], t0[:k] + "\"" + t0[k:], t0[:k]]):
+                f.write(json.dumps({"id": "dmg:%s:%d" % (r["id"], j), "text": dmg}) + "\n")
+            n += 1
+    C.run([C.VT, "ranges", "--universe", "file", "--input", mut, "--max-doc", "90", "--cfgs", "40:2:2:0", "--trees", "false",
+           "--outdir", d2, "--shards", "4"], timeout=3000)
+    for dd in (d, d2):
+        ss = json.load(open(os.path.join(dd, "summary.json")))
+        ctx.recdirs.append(dd)
+        ctx.rec_summaries.append(dict(name=os.path.basename(dd), **{k: ss[k] for k in (
+            "universe", "elements", "events", "format_calls", "nontrivial_events", "universe_stats")}))
+        ctx.nontrivial += ss["nontrivial_events"]
+        ctx.samples += ss["samples"][:3]
+    ctx.validate("TraceFmt", ["R13NoPanic", "R13Cover", "R13Refuse", "R13Splice"])
+    ctx.extra["range_calls"] = sum(r["format_calls"] for r in ctx.rec_summaries)
+    ctx.rule = ("one evaluation = one distinct result (node range, text) of format_source_range on a document, standing for "
+                "all requested (start, end) pairs on character boundaries that produced it (end up to 2*len+1); "
+                "non-trivial = the splice changes the document")
+
+
+# ---------------------------------------------------------------------------------------
+# C17 — determinism over histories (Session.tla)
+
+def c17(ctx):
+    q = ctx.quick
+    r = ctx.design_check("Session", "SPECIFICATION Spec\nCONSTANTS Threads = {1, 2}\n Docs = {1, 2}\n Cfgs = {1}\n MaxCalls = %d\n"
+                         "INVARIANTS Deterministic GenSched\nCHECK_DEADLOCK FALSE\n" % (2 if q else 3), workers=4)
+    scheds = sorted(set(C.parse_tlc_tuple_lines(r["out"], "SCHED")))
+    import hashlib
+    scheds.sort(key=lambda x: hashlib.sha256(("%d|%s" % (ctx.seed, x)).encode()).hexdigest())
+    scheds = scheds[:400 if q else 6000]
+    sf = os.path.join(ctx.work, "schedules.txt")
+    with open(sf, "w") as f:
+        for sline in scheds:
+            f.write("[" + sline.strip("<>").replace(" ", "") + "]\n")
+    d = os.path.join(ctx.work, "rec-hist")
+    common = ["--universe", "gap+fix", "--single", "1/300", "--max-bytes", "6000", "--docs", "40" if q else "160",
+              "--seed", str(ctx.seed), "--cfgs", "80:2:2:0,20:4:2:0,0:2:2:1,120:3:2:0", "--verif", C.VERIF,
+              "--fixtures", os.path.join(C.REPO, "tests", "fixtures")]
+    t = time.time()
+    C.run([C.VT, "hist"] + common + ["--hthreads", "16", "--rounds", "300" if q else "3000", "--sched", sf, "--outdir", d], timeout=3000)
+    # the same calls in a fresh process (different RandomState)
+    d2 = os.path.join(ctx.work, "rec-hist-p2")
+    C.run([C.VT, "hist"] + common + ["--hthreads", "2", "--rounds", "20", "--outdir", d2], timeout=3000)
+    with open(os.path.join(d, "shard-00.ndjson"), "a") as f:
+        for line in open(os.path.join(d2, "shard-00.ndjson")):
+            e = json.loads(line)
+            e["mode"] = "process2:" + e["mode"]
+            e["thread"] += 100
+            f.write(json.dumps(e) + "\n")
+    s = json.load(open(os.path.join(d, "summary.json")))
+    n = sum(1 for _ in open(os.path.join(d, "shard-00.ndjson")))
+    C.log("recorded history: %d events incl. %d replayed schedules in %.1fs" % (n, len(scheds), time.time() - t))
+    ctx.recdirs.append(d)
+    ctx.rec_summaries.append(dict(name="hist", universe="hist", elements=s["elements"], events=n, format_calls=n,
+                                  nontrivial_events=n, universe_stats={"schedules_replayed": len(scheds)}))
+    ctx.nontrivial += n
+    ctx.samples += s["samples"][:2] + [dict(schedule=scheds[0] if scheds else None)]
+    ctx.validate("TraceSession", None, specname="TSpec", consts='CONSTANT Rels = {"Deterministic", "NoPanic"}\n', xmx="4g")
+    ctx.extra["schedules_replayed"] = len(scheds)
+    ctx.rule = ("one evaluation = one format call in a recorded history (sequential A;B;A, 16 free-running threads, "
+                "TLC-generated phase interleavings of concurrent calls replayed through the phase hook, a second process); "
+                "all are non-trivial (every call formats a document)")
+
+
+# ---------------------------------------------------------------------------------------
+# C18 — linear work (Cost.tla)
+
+def c18(ctx):
+    q = ctx.quick
+    cost = ("SPECIFICATION Spec\nCONSTANTS Depth = %d\n Branch = 2\n B = 4\n AntiPattern = %s\n"
+            "INVARIANTS BoundedVisits Complete\nCHECK_DEADLOCK FALSE\n")
+    ctx.design_check("Cost", cost % (3, "FALSE"), workers=4)
+    # vacuity guard: the anti-pattern must violate the invariant in the model
+    r = C.model_check("Cost", cost % (3, "TRUE"), os.path.join(ctx.work, "mc-Cost-anti"), workers=4)
+    if r["ok"] or "BoundedVisits is violated" not in r["out"]:
+        raise C.ToolError("vacuity guard failed: Cost.tla with the anti-pattern does not violate BoundedVisits")
+    ctx.extra["antipattern_violates_in_model"] = True
+    d = os.path.join(ctx.work, "rec-visits")
+    t = time.time()
+    C.run([C.VT, "visits", "--max-depth", "48" if q else "200", "--widths", "0,40,120" if q else "0,1,20,40,80,120",
+           "--outdir", d, "--shards", "4", "--fixtures", os.path.join(C.REPO, "tests", "fixtures")], timeout=3000)
+    s = json.load(open(os.path.join(d, "summary.json")))
+    C.log("recorded visit logs: %d documents, %d events in %.1fs" % (s["elements"], s["events"], time.time() - t))
+    ctx.recdirs.append(d)
+    ctx.rec_summaries.append(dict(name="visits", **{k: s[k] for k in ("universe", "elements", "events", "format_calls",
+                                                                        "nontrivial_events", "universe_stats")}))
+    ctx.nontrivial += s["nontrivial_events"]
+    ctx.samples += s["samples"][:4]
+    ctx.validate("TraceCost", None, specname="TSpec",
+                 consts='CONSTANTS Depth = 1\n Branch = 1\n B = 4\n AntiPattern = FALSE\n Rels = {"BoundedVisits", "Completes"}\n')
+    # reduce the log for the evidence file: worst ratio of conversions to nodes, slowest call
+    worst = (0.0, None)
+    slow = (0, None)
+    for sh in glob.glob(os.path.join(d, "shard-*.ndjson")):
+        for line in open(sh):
+            e = json.loads(line)
+            r0 = e["visits"] / max(1, e["nodes"])
+            if r0 > worst[0]:
+                worst = (r0, e["id"])
+            if e["us"] > slow[0]:
+                slow = (e["us"], e["id"])
+    ctx.extra["max_conversions_per_node_ratio"] = round(worst[0], 3)
+    ctx.extra["max_ratio_at"] = worst[1]
+    ctx.extra["slowest_call_us"] = slow[0]
+    ctx.extra["slowest_call"] = slow[1]
+    ctx.rule = ("one evaluation = one format call with the visit hook on (every nesting family to the stated depth, ordered "
+                "pairs of families, all fixtures, several widths); the log is reduced to conversions per node; all non-trivial")
+
+
 TABLE = {
     "C14": cli_family, "C15": cli_family, "C16": cli_family,
-    "C01": c01, "C03": c03, "C04": c04, "C06": c06, "C08": c08, "C09": c09, "C10": c10, "C11": c11, "C12": c12,
+    "C01": c01, "C07": c07, "C19": c19, "C05": c05, "C13": c13, "C17": c17, "C18": c18, "C03": c03, "C04": c04, "C06": c06, "C08": c08, "C09": c09, "C10": c10, "C11": c11, "C12": c12,
 }
